@@ -1,4 +1,5 @@
 SPECIFICATION TraceSpec
+CONSTANT Ms = {200}
 INVARIANTS Verdicts Drift
 POSTCONDITION Accepted
 CHECK_DEADLOCK FALSE
